@@ -612,6 +612,10 @@ class Randomizer(RandIF):
                 randomize_done(srcinfo, solve_info)
             for fm in field_model_l:
                 ConstraintOverrideRollbackVisitor.rollback(fm)
+            # Inline constraints can reference dynamic-constraint blocks,
+            # which live on after this call
+            for c in constraint_l:
+                ConstraintOverrideRollbackVisitor.rollback(c)
 
         visited = [] 
         for fm in field_model_l:
